@@ -201,11 +201,11 @@ class Check:
               'solver=%.1fs wall=%.1fs' % (self.pid, self.tier, self.obligations, self.discharged, self.inconclusive,
                                            len(self.violations), len(self.known_hits), len(self.harness_errors),
                                            self.solver_s, wall))
+        for h in self.harness_errors[:10]:
+            print('HARNESS-ERROR', h)
         if self.violations:
             return EXIT_VIOLATION
         if self.harness_errors:
-            for h in self.harness_errors[:10]:
-                print('HARNESS-ERROR', h)
             return EXIT_HARNESS
         return EXIT_OK
 
